@@ -567,8 +567,8 @@ fn main() {
     let c2 = circles.clone();
     let pairs = circles.into_iter().enumerate().flat_map(move |(i, a)| c2.clone().into_iter().skip(i).map(move |b| Case::LatCC { c1: a.0, r1: a.1, c2: b.0, r2: b.1 }));
     ctx.exhaustive("lattice-circle-pairs", "geometry-case", &format!("all unordered pairs of circles with centre in [-{e},{e}]^2 and radius 1..={e}"), true, pairs, run_case);
-    ctx.prop_split("lattice-generated", "geometry-case", ctx.n(250_000, 5_000_000), ctx.parts(), lattice_cases(ctx.n(12, 40) as i32).boxed(), run_case);
-    ctx.prop("real-valued-and-tangencies", "geometry-case", ctx.n(25_000, 600_000), real_cases(), run_case);
-    ctx.prop_split("near-tangencies-exactly-representable", "geometry-case", ctx.n(30_000, 800_000), ctx.parts(), near_cases().boxed(), run_case);
+    ctx.prop_split("lattice-generated", "geometry-case", ctx.n(250_000, 40_000_000), ctx.parts(), lattice_cases(ctx.n(12, 40) as i32).boxed(), run_case);
+    ctx.prop("real-valued-and-tangencies", "geometry-case", ctx.n(25_000, 6_000_000), real_cases(), run_case);
+    ctx.prop_split("near-tangencies-exactly-representable", "geometry-case", ctx.n(30_000, 8_000_000), ctx.parts(), near_cases().boxed(), run_case);
     ctx.finish();
 }
